@@ -71,23 +71,16 @@ func (w *MarkdownWriter) Write() ([]byte, error) {
 		w.writeMetadata()
 	}
 
-	// 遍历文档段落
+	// 按正文顺序遍历段落和表格
 	if w.doc.Body != nil {
-		for _, para := range w.doc.Body.GetParagraphs() {
-			err := w.writeParagraph(para)
-			if err != nil {
-				if w.opts.ErrorCallback != nil {
-					w.opts.ErrorCallback(err)
-				}
-				if !w.opts.IgnoreErrors {
-					return nil, err
-				}
+		for _, element := range w.doc.Body.Elements {
+			var err error
+			switch e := element.(type) {
+			case *document.Paragraph:
+				err = w.writeParagraph(e)
+			case *document.Table:
+				err = w.writeTable(e)
 			}
-		}
-
-		// 处理表格
-		for _, table := range w.doc.Body.GetTables() {
-			err := w.writeTable(table)
 			if err != nil {
 				if w.opts.ErrorCallback != nil {
 					w.opts.ErrorCallback(err)
